@@ -1027,7 +1027,19 @@ class Sym:
                 a = B(("btrue",) if self.decide("%s = true" % coq_B(a[1]), "%s = false" % coq_B(a[1])) else ("bfalse",))
             if (e[1] == "&&") == (a[1] == ("bfalse",)): return a          # short circuit: the right operand is NOT evaluated
             return self.ev(e[3], env)
-        if k == "bin": return self.binop(e[1], self.ev(e[2], env), self.ev(e[3], env))
+        if k == "bin":
+            a_, b_ = self.ev(e[2], env), self.ev(e[3], env)
+            if e[1] in ("+", "-", "*", "/") and a_[0] == "T" and self.self0:
+                # sample arithmetic may panic for checked sample types: which receiver fields are already written at that moment
+                # is part of the effect signature (a state taken out `while` the arithmetic runs is lost when it panics)
+                try: cur_ = env.get("self")
+                except Exception: cur_ = None
+                if cur_ is not None:
+                    d_ = dirty_paths(self.self0[-1], cur_, "self", [])
+                    if d_:
+                        ev_ = "written before sample arithmetic: %s" % ", ".join(d_)
+                        if ev_ not in self.effects: self.effects.append(ev_)
+            return self.binop(e[1], a_, b_)
         if k == "if":
             c = self.ev(e[1], env)
             if c[0] != "B": raise Unsupported("condition is not a boolean")
@@ -1456,7 +1468,7 @@ class Sym:
                 self.depth += 1
                 if self.depth > 6: raise Unsupported("self recursion deeper than 6")
             for pn, a in zip(pnames, args): inner.vars[pn] = a
-            self.self0.append(recv)
+            self.self0.append(self.self0[-1] if (recv_e == ("path", ["self"]) and self.self0) else recv)     # a helper method of the receiver itself: same base state
             try:
                 ret = self.block(ast, inner)
             except Return as r:
